@@ -62,9 +62,13 @@ def pure_version_init(e):
         elif k == "Member" and n.get("owner") == NIV:
             saw = True
         elif k == "Ref":
+            if n.get("rk") == "local" and n.get("val") is not None and "const" in (n.get("t") or ""):
+                continue  # a folded constant
             if n.get("rk") in ("local", "param") and "Stream" not in (n.get("t") or "") and "Header" not in (n.get("t") or "") \
                     and "NiVersion" not in (n.get("t") or "") and (n["id"], n["name"]) not in VERSION_LOCALS:
                 return False
+            if n.get("rk") == "local" and (n.get("id"), n.get("name")) in VERSION_LOCALS:
+                saw = True  # a local that caches a version expression is one
         elif k in ("Binary", "Unary", "Lit", "Cast", "This", "Member", "Cond"):
             continue
         else:
@@ -168,8 +172,8 @@ class VersionEval:
             return self.ev(e["args"][0], ver, depth + 1, binds)
         if k == "Lit":
             return e.get("val")
-        if "val" in e and k in ("Ref", "Sizeof", "Cast", "Member") and e.get("rk") != "local":
-            return e["val"]
+        if "val" in e and k in ("Ref", "Sizeof", "Cast", "Member") and (e.get("rk") != "local" or "const" in (e.get("t") or "")):
+            return e["val"]  # (a const local the compiler folds — `constexpr NiFileVersion first = V10_1_0_104;` — is its value)
         if k == "Cast":
             return self.ev(e["e"], ver, depth + 1, binds)
         if k == "Member" and e.get("owner") == NIV:
@@ -288,12 +292,37 @@ class VersionEval:
         loads = [f for f in self.F.fn_named("nifly::NifFile::Load") if "istream" in f["id"]]
         if len(loads) != 1:
             raise AnalysisBroken("cannot locate NifFile::Load(std::istream&, …)")
+        # Load itself and the private helpers of NifFile it hands the reading to
+        bodies = [loads[0]]
         for n in walk(loads[0]["body"]):
-            if n["k"] == "If" and is_node(n.get("cond")) and self.is_version_expr(n["cond"]):
+            if n["k"] == "Call" and n.get("fid") in self.F.fns and self.F.fns[n["fid"]].get("cls") == "nifly::NifFile" and \
+                    self.F.fns[n["fid"]].get("access") in ("private", "protected") and self.F.fns[n["fid"]].get("body"):
+                bodies.append(self.F.fns[n["fid"]])
+        for fn in bodies:
+            defs = {}
+            for n in walk(fn["body"]):
+                if n["k"] == "Decl":
+                    for v in n.get("vars", []):
+                        if is_node(v.get("init")):
+                            defs[v["id"]] = v["init"]
+            for n in walk(fn["body"]):
+                if n["k"] != "If" or not is_node(n.get("cond")):
+                    continue
+                cond, accepted_when = n["cond"], False
+                # `const bool supported = IsOB() || ...; if (!supported) return 2;` — the named flag is its definition
+                c0, neg = cond, False
+                while is_node(c0) and (c0["k"] == "Cast" or (c0["k"] == "Unary" and c0["op"] == "!")):
+                    if c0["k"] == "Unary":
+                        neg = not neg
+                    c0 = c0["e"]
+                if is_node(c0) and c0["k"] == "Ref" and c0.get("rk") == "local" and c0.get("id") in defs:
+                    cond, accepted_when = defs[c0["id"]], neg
+                if not self.is_version_expr(cond):
+                    continue
                 # the branch must reject: contains `return <nonzero>`
                 rets = [x for x in walk(n["then"]) if x["k"] == "Return"]
                 if rets and all(is_node(r.get("e")) and r["e"].get("val") not in (None, 0) for r in rets):
-                    return n["cond"], False  # accepted iff cond is False
+                    return cond, accepted_when  # accepted iff cond evaluates to accepted_when
         raise AnalysisBroken("NifFile::Load: version acceptance test not found")
 
     def accepted(self, ver):
